@@ -37,3 +37,14 @@ CHECKS["C18"] = dict(
     assumptions=E1_ASSUME,
     units=[dict(pkg="provider/mem", test="TestVerifC18Alerts", shards_quick=16, shards_thorough=16, budget_quick=60, budget_thorough=900)],
 )
+
+CHECKS["C03"] = dict(
+    level="model_checking",
+    engine="seqx",
+    rule="all histories up to the completed depth of fire(short/long end)/resolve of 3-5 source alerts, source-cache GC and clock advances, on the real Inhibitor fed by the real provider subscription; pruned parts are an explicit-state BFS over the canonical state (provider store, source cache, equal-label index, all times relative to now); states = distinct canonical states / observation traces; transitions = events executed",
+    technique="explicit-state search over the real transition function (BFS with canonical state keys) + unpruned bounded-exhaustive history enumeration, oracle = existential rule evaluated independently on the provider's firing alerts",
+    level_text="After every event of every history the verdict of Inhibitor.Mutes for 7 probe label sets (target, two-sided target, other/missing/empty equal value, unrelated, non-target) and the reported inhibiting fingerprint are compared with the documented existential rule evaluated on the set of currently firing alerts, so order independence is checked by construction (all orders reaching a firing set meet the same set-based oracle).",
+    level_note="One rule (equality matchers, one equal label), 5 sources, ends +2m/+10m, advances 1m/5m/16m. The 15m source-cache GC ticker is replaced by an explicit GC event (same function). Instants where an end equals now are not judged.",
+    assumptions=E1_ASSUME + ["ground truth = alerts held by the real provider whose end is in the future"],
+    units=[dict(pkg="inhibit", test="TestVerifC03", shards_quick=16, shards_thorough=16, budget_quick=60, budget_thorough=900)],
+)
